@@ -395,10 +395,11 @@ func r20_3(c *RC) {
 			}
 			// marshalled value is the same config
 			sameCfg := false
-			for _, l := range Leaves(call.Common().Args[1], nil) {
+			// (the encoder may sit in a helper taking the config)
+			for _, l := range LeavesX(p, fn, call.Common().Args[1], 0) {
 				if ex, ok := l.(*ssa.Extract); ok {
 					if cl, ok := ex.Tuple.(*ssa.Call); ok && (strings.HasSuffix(calleeID(cl), "proto.Marshal") || calleeName(cl) == "MarshalJSON") {
-						for _, l2 := range Leaves(cl.Common().Args[0], nil) {
+						for _, l2 := range LeavesIP(p, cl.Parent(), cl.Common().Args[0], 0) {
 							if l2 == ssa.Value(fn.Params[0]) {
 								sameCfg = true
 							}
